@@ -49,8 +49,8 @@ claim("C14",
       "Usage computed by construction of the template. MaxArraySizeBytes=0 (unlimited) excluded; identifier length limit is decided in C13's identifier entry; CTE decoder size check is a one-line wrapper outside the encoded code. Markers are additionally charged against MaxLocalReferenceCount (pinned by the suite): exact verdict asserted when that limit does not bind.",
       "DESIGN.md §5 C14")
 claim("C16",
-      "Histories of two or three documents on one instance (rules validator after Reset, CBE encoder, CBE decoder): earlier documents are templates cut at every event index or invalid, the last has a symbolic payload and symbolic limits; z3 shows verdict, forwarded events and output bytes equal those of a fresh instance.",
-      "Outside: marshaler/unmarshaler sessions and type caches (reflection, sync.Map); the CTE encoder's column state is covered by C23's harness only indirectly. 'Same error' = same nil-ness.",
+      "Histories of two or three documents on one instance (rules validator after Reset, CBE encoder, CBE decoder): earlier documents are templates cut at every event index or invalid, the last has a symbolic payload and symbolic limits; z3 shows verdict, forwarded events and output bytes equal those of a fresh instance. The real cbe.Marshaler, cte.Marshaler and cbe.Unmarshaler (sessions and type caches included) are reused after valid calls, unsupported types, write failures at any call index, truncated documents and mismatching templates; the last call (symbolic payload) gives the same error, bytes and value as a fresh instance.",
+      "Same error = same nil-ness. reflect, sync.Map, WaitGroup are the engine's emulation / sequential model. CTE decoders/unmarshalers (ANTLR) are outside reach.",
       "DESIGN.md §5 C16")
 claim("C26",
       "Typed slices of 0..3 elements with every element bit symbolic through the public ce.*SliceAsBytes / ce.BytesTo*Slice helpers (the package's unsafe-based endianness probe is interpreted, not assumed); z3 shows both round trips are the identity, the byte layout is little-endian per element, and the bytes equal what the CBE encoder writes and the decoder returns.",
@@ -69,8 +69,8 @@ claim("C29",
       "The marshaler's reflection walk (iterator.Session.Init, RootObjectIterator.Iterate) is replaced by a template event source and cte.ParseDocument by an accepting stub; Marshal wrappers, encoders, writers, readers and the CTE copy loop are the real code. Unmarshaler wrappers (builder sessions) not covered.",
       "DESIGN.md §5 C29")
 claim("C18",
-      "Pointer-held big numbers with symbolic words/sign (big.Int 1..3 words; apd.Decimal with symbolic coefficient, sign, exponent) are passed through the rules validator and the real CBE encoder; z3 shows sign and every word are unchanged afterwards.",
-      "Encoder event boundary only (the marshaler's reflection walk is outside reach); the CTE encoder's decimal text conversion of big numbers is symbolic long division and outside reach.",
+      "Pointer-held big numbers with symbolic words/sign (big.Int 1..3 words; apd.Decimal with symbolic coefficient, sign, exponent) are passed through the rules validator and the real CBE encoder; z3 shows sign and every word are unchanged afterwards. The real cbe.Marshaler walks a struct reaching a pointer-held big.Int, a big.Int by value, a map of *big.Int, a *apd.Decimal, slices, strings, a map and a pointed-to struct (one number and one plain payload symbolic per run); z3 shows everything reachable equals a snapshot taken before; the cte.Marshaler likewise on the number-free part.",
+      "*big.Float and the decimal text of symbolic big numbers (CTE) are outside reach. reflect, sync.Map, WaitGroup are the engine's emulation / sequential model.",
       "DESIGN.md §5 C18")
 claim("C19",
       "The builder's numeric conversion kernels (setIntFrom*/setUintFrom*/setFloatFrom*/setBigIntFromUint/setPBigIntFromUint, conversions.UintToBigInt, BuilderEventReceiver.OnNegativeInt) run on fully symbolic 64-bit integers, float bit patterns and 2-word big.Ints against every integer/float destination width; z3 shows that whenever no error is raised the stored value equals the source's mathematical value (bit-level oracle).",
@@ -85,8 +85,8 @@ claim("C08",
       "Bound constants chosen generously (DESIGN.md §5 C08). Decoding time and the CTE decoder are outside reach. Memory = bytes requested through make/append (engine ghost state; natively runtime.MemStats.TotalAlloc).",
       "DESIGN.md §5 C08")
 claim("C09",
-      "Encoder-produced CBE documents (11 templates, symbolic payload, two with >= 64 elements so that a chunk header is a 2-byte ULEB128) and raw accepted documents of 3..4 fully symbolic bytes (5 thorough) are cut at every position (long templates: first and last 8 positions); z3 shows the decoder+validator reject every proper prefix.",
-      "Outside: 'partial result is a prefix of the full value' (builders) and CTE. Raw documents containing the padding code are excluded (a cut before trailing padding leaves a complete document).",
+      "Encoder-produced CBE documents (11 templates, symbolic payload, two with >= 64 elements so that a chunk header is a 2-byte ULEB128) and raw accepted documents of 3..4 fully symbolic bytes (5 thorough) are cut at every position (long templates: first and last 8 positions); z3 shows the decoder+validator reject every proper prefix. The real cbe.Marshaler/Unmarshaler on 5 values (untyped lists, nested lists, map of lists, a typed struct with slice and pointer fields, typed []string) with symbolic payloads, cut at every position: Unmarshal returns an error and the partial value it returns is a prefix of the full one (present elements/entries are the original ones, nothing else appears).",
+      "Outside: CTE. Raw documents containing the padding code are excluded (a cut before trailing padding leaves a complete document). 'Prefix' is defined in harness/C09/partial.go.",
       "DESIGN.md §5 C09")
 claim("C04",
       "(a) Typed round trip through the real iterator Session, rules validator and builder Session (and, for the cases with few integers, the real CBE encoder and decoder in between): 24 Go types (struct of all integer widths, bool, string; floats; []byte, [2]byte, slices/arrays of uint16/int32/uint64/float32, []string, []int, []uint, []bool, maps, pointers nil/non-nil, *[]string, nested and embedded structs, interface{} fields, []struct, structs with types.Media values, adjacent byte slices, top-level int64/string) with symbolic contents; z3 shows marshal and unmarshal succeed and every field/element/entry of the result equals the original. (b) Chunked-array reassembly in the real BuilderEventReceiver/Context with symbolic content and every chunking. (c) Integer arrival: every int64/uint64 value as the events a decoder produces into a destination of its own type is accepted and stored exactly.",
